@@ -503,6 +503,8 @@ def run(ctx):
         style = str(rng.choice(['noise', 'tone', 'int', 'big']))
         cx = bool(rng.integers(0, 2)); cy = bool(rng.integers(0, 2))
         lx = int(rng.integers(1, nmax)); mode = int(rng.integers(0, 6))
+        if it % 8 == 7:
+            lx = int(rng.integers(97, 321))          # long records: vectorised / blocked summation paths
         # ---- CORRELATION
         if mode == 0:
             y = None; ly = lx
